@@ -129,11 +129,12 @@ structure Reader where
   hasDir : Bool
 deriving Repr
 
-/-- toast.go:(*TOASTReader).ReadValue; the result for a non-pointer is the input itself -/
+/-- toast.go:(*TOASTReader).ReadValue; the result for a non-pointer is the input itself.  Returns the reader as
+well: a table loaded from the data directory stays loaded (`r.chunks[toastRelID] = …`). -/
 def readValue (zlib : Bytes → Option Bytes) (readFile : Nat → Option Bytes) (r : Reader) (data : Bytes) :
-    M (Option Bytes) := do
+    M (Option Bytes × Reader) := do
   match ← parseTOASTPointer data with
-  | none => return some data
+  | none => return (some data, r)
   | some p =>
     let tables ←
       if (r.tables.lookup p.toastRelID).isNone && r.hasDir then
@@ -141,9 +142,10 @@ def readValue (zlib : Bytes → Option Bytes) (readFile : Nat → Option Bytes) 
         | some f => do pure ((p.toastRelID, ← readTOASTTable f) :: r.tables)
         | none => pure r.tables
       else pure r.tables
+    let r' : Reader := { r with tables }
     match tables.lookup p.toastRelID with
-    | none => return none
-    | some cs => reassembleTOAST zlib cs p.valueID (some p)
+    | none => return (none, r')
+    | some cs => return (← reassembleTOAST zlib cs p.valueID (some p), r')
 
 /-! ### GetTOASTVerboseInfo -/
 
